@@ -60,6 +60,8 @@ def run(ctx):
     exprs, meta, found = [], [], []
     raised = {}
     opcount = {}
+    import tie_binop        # translator tie of the block-level arithmetic (Gen/BinopGen.v); own cases shard
+    binop_tie = tie_binop.Collector(ctx)
 
     def three_ways(name, calls):
         """call an operation as method / symmray function / autoray dispatch; all
@@ -182,6 +184,7 @@ def run(ctx):
                     ctx.count()
                     exprs.append('match %s with None => true | Some _ => false end' % model)
                     meta.append(('sub-raises', sym, k, ''))
+        binop_tie.add_pair(x, y, sym, ring, k, scalar=s)
         # in-place variants
         try:
             z = x.copy(); z += y
@@ -375,6 +378,8 @@ def run(ctx):
     tie_broken = []
     import tie_prims
     tie_broken += tie_prims.tie(ctx)
+    tie_broken += binop_tie.run()
+    ctx.extra.setdefault('tie', {})['model_cases'] = len(exprs)
     if bad_idx is None:
         tie_broken.append('cases.v (structural/arithmetic model vs implementation) did not evaluate')
     elif bad_idx:
